@@ -24,7 +24,8 @@ Theorem C10_refines_spec : forall ops,
 Proof. intros ops. apply AckP.run_refines. apply init_RA. Qed.
 
 (* "remains held until the server acknowledges it", on the model itself: a stanza sent at ANY point of ANY
-   history (whatever the server granted before) gets the next number n; after ANY continuation on the same session it is queued under n iff no
+   history (whatever the server granted before) gets the next number n; the continuation may contain
+   connection attempts that fail (AFailedAttempt) and resumptions of the session (AResumed): after ANY continuation on the same session it is queued under n iff no
    acknowledgement since carried h >= n, and nothing else is ever queued under n. *)
 Theorem C10_held_iff_unacked : forall pre o d post,
   first_tx o = [d] -> same_session post ->
@@ -55,8 +56,9 @@ Theorem C10_wire_order_is_numbering : forall ops, same_session ops ->
   forall i d, In (i, d) (fst (fst st)) -> 1 <= i /\ nth_error (flat_map first_tx ops) (Z.to_nat (i - 1)) = Some d.
 Proof. exact wire_order_is_numbering. Qed.
 
-(* acknowledgement requests and answers are never held or counted: through Send (by value or
-   by pointer: both are the same kind of packet) and through SendRaw (a raw <r/> or <a/>) *)
+(* only stanzas are held and counted: acknowledgement requests and answers (through Send by value or by
+   pointer, or as a raw string), other nonzas, elements of a foreign namespace, white space, the empty
+   string, a nil packet are written and leave the queue object as it is *)
 Theorem C10_acks_not_held : forall st k d, k <> KStanza ->
   fst (a_step st (ASend k d)) = st /\ fst (a_step st (ASendRaw k d)) = st.
 Proof. exact acks_not_held. Qed.
@@ -126,7 +128,8 @@ Example C10_example :
                 AAck 2; ASend KAnswer [9%N]; AAck 1; AAck 7; ARefused KStanza [5%N]; ASendRaw KRequest [];
                 ASendRaw KStanza [4%N]; AAck 3; ASend KStanza [6%N]; AAckRefused 3 1; AAckRefused 4 1; AAck (2 ^ 63);
                 AEnabled true; ASend KStanza [7%N]; AEnabled false; ASend KStanza [8%N]; AAck 0; AEnabled true;
-                ASendRaw KStanza [8%N]]
+                ASendRaw KStanza [8%N]; ASendRaw KOther [32%N]; AFailedAttempt; AAckRefused 0 0; AFailedAttempt; AResumed;
+                ASend KOther []; AAck 0; AAck 1]
   = [([WData [1%N]], [(1, [1%N])]);
      ([WData [2%N]], [(1, [1%N]); (2, [2%N])]);
      ([WRequest], [(1, [1%N]); (2, [2%N])]);
@@ -149,7 +152,15 @@ Example C10_example :
      ([WData [8%N]], [(1, [8%N])]);
      ([WData [8%N]; WRequest], [(1, [8%N])]);
      ([], []);
-     ([WData [8%N]], [(1, [8%N])])].
+     ([WData [8%N]], [(1, [8%N])]);
+     ([WData [32%N]], [(1, [8%N])]);
+     ([], [(1, [8%N])]);
+     ([], [(1, [8%N])]);
+     ([], [(1, [8%N])]);
+     ([], [(1, [8%N])]);
+     ([WData []], [(1, [8%N])]);
+     ([WData [8%N]; WRequest], [(1, [8%N])]);
+     ([], [])].
 Proof. reflexivity. Qed.
 
 (* the hypotheses of C10_held_iff_unacked are met, and both sides of its equivalence occur *)
